@@ -315,7 +315,7 @@ fn zero_block_families() -> Vec<Vec<f64>> {
 }
 
 pub fn run(ctx: &Ctx) {
-    ctx.rule("weights: every vector over {0..7} of length 1..6 (all-zero excluded) + zero-block families up to length 64, f32 and f64; every vector: normalisation, logp, boundary probes (0, 2^-24, each cumulative sum +-3 grid units, 1-ulp) with range / p>0 / law / monotonicity oracles; f32 vectors in the sweep set: ALL 2^24 variates (injected through the tap on the real sample()). states = distinct (type, weight vector); transitions = sample() calls; non-trivial = a swept vector, distinct by (weights, per-category counts)");
+    ctx.rule("weights: every vector over {0..7} of length 1..6 (all-zero excluded) + zero-block families up to length 64 + short vectors scaled by {1e-44..1e30} (f32) / {5e-324..1e300} (f64) incl. subnormal totals, f32 and f64; every vector: normalisation, logp, boundary probes (0, 2^-24, each cumulative sum +-3 grid units, 1-ulp) with range / p>0 / law / monotonicity oracles; f32 vectors in the sweep set: ALL 2^24 variates (injected through the tap on the real sample()). states = distinct (type, weight vector); transitions = sample() calls; non-trivial = a swept vector, distinct by (weights, per-category counts)");
     // injection premise
     {
         let mut pr = make_probe_f32(&[1.0, 1.0]);
@@ -339,6 +339,19 @@ pub fn run(ctx: &Ctx) {
             check_static_and_probes(ctx, ty, w);
             ctx.state(hash_f64s(ty, w));
         });
+    }
+    // scaled (unnormalised) weights: the same short vectors multiplied by extreme but finite scales, incl. subnormal totals
+    let short = all_vectors(3, 3);
+    for (ty, scales) in [("f32", vec![1e-44, 1e-40, 1e-30, 3.0e-20, 1e20, 1e30]), ("f64", vec![5e-324, 1e-310, 1e-300, 1e-150, 1e150, 1e300])] {
+        for sc in scales {
+            short.par_iter().for_each(|w| {
+                let ws: Vec<f64> = w.iter().map(|x| if ty == "f32" { ((x * sc) as f32) as f64 } else { x * sc }).collect();
+                if ws.iter().any(|x| *x > 0.0) && ws.iter().all(|x| x.is_finite()) {
+                    check_static_and_probes(ctx, ty, &ws);
+                    ctx.state(hash_f64s(ty, &ws));
+                }
+            });
+        }
     }
     // sweep set
     let mut sweep: Vec<Vec<f64>> = all_vectors(ctx.tier.pick(2, 3), top);
